@@ -242,6 +242,81 @@ func runC07(c *Ctx) error {
 		}
 		c.count(tag, true, "ending="+ending, fmt.Sprintf("parallel=%v", parallel))
 	}
+	// ---- endings that start on the WRITE side while the reader is parked in a healthy, silent transport
+	wendings := []string{"writeclose", "write-fault", "write-dead", "deadline-fault", "netconn-close"}
+	for it := 0; it < 4*len(wendings); it++ {
+		server := it%2 == 0
+		ending := wendings[it%len(wendings)]
+		pmd := (it/len(wendings))%2 == 1
+		h := &lifeHandler{panicAt: map[string]bool{}}
+		h.seq = &seqLog{}
+		spec := connSpec{Server: server, PMD: pmd, RLimit: 5000}
+		conn, tap, err := spec.open(h)
+		if err != nil {
+			return err
+		}
+		tap.feed(dataFrame(1, true, server, []byte("one message, then silence")))
+		rl := make(chan struct{})
+		go func() { defer close(rl); conn.ReadLoop() }()
+		for i := 0; i < 2000 && len(h.events()) < 2; i++ {
+			time.Sleep(time.Millisecond)
+		}
+		var werr error
+		switch ending {
+		case "writeclose":
+			werr = conn.WriteClose(1000, []byte("bye"))
+		case "write-fault": // the data write fails, the Close frame behind it goes through
+			tap.mu.Lock()
+			tap.failWrite = tap.nWrite
+			tap.mu.Unlock()
+			werr = conn.WriteMessage(gws.OpcodeText, []byte("lost"))
+		case "write-dead": // the link is broken for writing: the Close frame cannot be written either
+			tap.mu.Lock()
+			tap.writeDeadFrom = tap.nWrite
+			tap.mu.Unlock()
+			werr = conn.WriteMessage(gws.OpcodeText, []byte("lost"))
+		case "deadline-fault":
+			tap.mu.Lock()
+			tap.failDead = tap.nDead
+			tap.mu.Unlock()
+			werr = conn.SetDeadline(time.Now().Add(time.Hour))
+		case "netconn-close":
+			werr = conn.NetConn().Close()
+		}
+		returned := false
+		select {
+		case <-rl:
+			returned = true
+		case <-time.After(5 * time.Second):
+		}
+		tag := fmt.Sprintf("write-side ending=%s server=%v pmd=%v", ending, server, pmd)
+		replay := map[string]any{"tag": tag, "call_error": fmt.Sprint(werr)}
+		opens, closes := 0, 0
+		var closeErr error
+		for _, e := range h.events() {
+			switch e.Kind {
+			case "open":
+				opens++
+			case "close":
+				closes++
+				closeErr = e.Err
+			}
+		}
+		closed, _ := tap.isClosed()
+		switch {
+		case !returned:
+			c.oracleFail(fmt.Sprintf("the connection was ended from the write side but ReadLoop did not return within 5 s (OnClose ran %d times, transport closed=%v) [%s]", closes, closed, tag), "readloop-hang", replay)
+			_ = tap.Close()
+			<-rl
+		case opens != 1 || closes != 1:
+			c.oracleFail(fmt.Sprintf("OnOpen x%d, OnClose x%d [%s]", opens, closes, tag), "close-not-once", replay)
+		case closeErr == nil:
+			c.oracleFail("OnClose received a nil error ["+tag+"]", "close-nil-error", replay)
+		case !closed:
+			c.oracleFail("transport not closed after the read loop ended ["+tag+"]", "transport-open", replay)
+		}
+		c.count(tag, true, "ending="+ending, "parallel=false")
+	}
 	// goroutines started by parallel handling must all have finished
 	var wg sync.WaitGroup
 	wg.Wait()
